@@ -46,10 +46,13 @@ def _additive_ok(coarse, fine, scale):
 class SmoothKL(nn.Module):
     """Smooth SDE with prior drift h; g has full column rank and is bounded away from singular."""
 
-    def __init__(self, nt, sde_type, d, m, gen):
+    def __init__(self, nt, sde_type, d, m, gen, col_scale=1.0):
         super().__init__()
         self.noise_type, self.sde_type, self.d, self.m = nt, sde_type, d, m
         r = lambda *shape: torch.randn(*shape, generator=gen, dtype=S.DT)
+        # col_scale < 1: the last column of g (additive / general) is that much smaller: badly scaled, full rank
+        self.col = torch.ones(m, dtype=S.DT)
+        self.col[-1] = col_scale
         self.Af, self.bf = nn.Parameter(0.5 * r(d, d)), nn.Parameter(0.3 * r(d))
         self.Ah, self.bh = nn.Parameter(0.5 * r(d, d)), nn.Parameter(0.3 * r(d))
         self.a, self.c = nn.Parameter(0.7 * r(d)), nn.Parameter(r(d))
@@ -72,10 +75,10 @@ class SmoothKL(nn.Module):
         if self.noise_type == "diagonal":
             return 0.7 + 0.3 * torch.sin(self.a * y + self.c + t)
         if self.noise_type == "additive":
-            return (self.G0 + torch.sin(t) * self.G1).unsqueeze(0).expand(y.size(0), self.d, self.m)
+            return ((self.G0 + torch.sin(t) * self.G1) * self.col).unsqueeze(0).expand(y.size(0), self.d, self.m)
         # scalar / general: state dependent, a perturbation of a full-column-rank matrix
         s = torch.tanh(y).mean(dim=1).reshape(-1, 1, 1)
-        return self.G0.unsqueeze(0) + s * self.G1.unsqueeze(0) + 0.05 * torch.cos(t)
+        return (self.G0.unsqueeze(0) + s * self.G1.unsqueeze(0) + 0.05 * torch.cos(t)) * self.col
 
 
 class HarnessAugmented(nn.Module):
@@ -130,10 +133,12 @@ def run(ctx):
 
     # ---------------- (A) replay of TLC's constant-c scenarios --------------------------------------
     worst_exact = 0.0
+    max_kappa = 1.0
     for idx, p in enumerate(scen):
         key = dict(p["key"])
         case = p["case"]
         kid = S.case_id(key) + "/c=" + ",".join(str(S.frac(q)) for q in p["c"])
+        key["c"] = ",".join(str(S.frac(q)) for q in p["c"])
         diag = case["sde"]["nt"] == "diagonal"
         B = 2
         y0 = torch.tensor([[S.fl(q) for q in case["y0"]]] * B, dtype=S.DT)
@@ -157,10 +162,19 @@ def run(ctx):
             continue
         want = torch.tensor([S.fl(q) for q in p["expect"]], dtype=S.DT).unsqueeze(1).expand(T - 1, B)
         e = S.rel_err(inc, want)
-        worst_exact = max(worst_exact, e)
-        if not e <= 1e-12:
+        # a backward-stable pseudo-inverse returns u = c up to O(kappa ulp); kappa of g at the returned states
+        kappa = 1.0
+        if not diag:
+            with torch.no_grad():
+                for ti, yi in zip(case["ts"], ys):
+                    kappa = max(kappa, float(torch.linalg.cond(sde.g(torch.tensor(S.fl(ti), dtype=S.DT), yi)).max()))
+        tol_exact = max(1e-12, 16 * kappa * EPS)
+        worst_exact = max(worst_exact, e / tol_exact)
+        max_kappa = max(max_kappa, kappa)
+        if not e <= tol_exact:
             ctx.violation(dict(key, what="exact_value"),
-                          f"logqp increments {inc[:, 0].tolist()} != 1/2|c|^2 dt = {want[:, 0].tolist()} (rel {e:.2e})",
+                          f"logqp increments {inc[:, 0].tolist()} != 1/2|c|^2 dt = {want[:, 0].tolist()} (rel {e:.2e} > "
+                          f"{tol_exact:.1e}; cond(g) = {kappa:.3g})",
                           replay=replay)
         if float(inc.min()) < -8 * EPS * max(1.0, float(want.abs().max())):
             ctx.violation(dict(key, what="non_negative"), f"negative increment {float(inc.min()):.3e}", replay=replay)
@@ -191,14 +205,22 @@ def run(ctx):
         for method, cal, opts in SOLVERS:
             if not _accepts(method, nt):
                 continue
-            for (d, m) in shapes[nt]:
+            # (d, m, column scale): the last entry is a badly scaled full-column-rank diffusion (cond about 1e7)
+            variants = [(d, m, 1.0) for (d, m) in shapes[nt]]
+            if nt in ("additive", "general"):
+                variants.append((3, 2, 2.0 ** -22))
+            for (d, m, col_scale) in variants:
                 for li, lay in enumerate(layouts):
-                    if ctx.tier == "quick" and (d, m) != shapes[nt][li % 2]:
+                    if col_scale != 1.0:
+                        if li != 0:
+                            continue
+                    elif ctx.tier == "quick" and (d, m) != shapes[nt][li % 2]:
                         continue
-                    key = dict(nt=nt, method=method, cal=cal, grad_free=bool(opts.get("grad_free")), d=d, m=m, layout=li)
-                    seed = rng(ctx.seed, "c18", nt, method, cal, str(opts), d, m, li).randrange(2 ** 31)
+                    key = dict(nt=nt, method=method, cal=cal, grad_free=bool(opts.get("grad_free")), d=d, m=m, layout=li,
+                               bad=col_scale != 1.0)
+                    seed = rng(ctx.seed, "c18", nt, method, cal, str(opts), d, m, li, col_scale).randrange(2 ** 31)
                     gen = torch.Generator().manual_seed(seed)
-                    base = SmoothKL(nt, cal, d, m, gen)
+                    base = SmoothKL(nt, cal, d, m, gen, col_scale=col_scale)
                     B = 3
                     y0 = 0.5 * torch.randn(B, d, generator=gen, dtype=S.DT)
                     ts, dt = lay["ts"], lay["dt"]
@@ -272,7 +294,9 @@ def run(ctx):
                        "the trajectory with the run without logqp is not claimed)",
                        "g has full column rank and is well conditioned on the paths used (kappa enters the budget)",
                        "exact case: polynomial SDEs, <= 2-3 steps (32-bit rationals in TLC)"]
-    ctx.notes["max_rel_err_exact_case"] = worst_exact
+    ctx.notes["max_err_over_tol_exact_case"] = worst_exact
+    ctx.notes["max_cond_g_exact_case"] = max_kappa
+    ctx.notes["badly_scaled_exact_cases"] = sum(1 for p in scen if p["key"].get("bad"))
     ctx.notes["max_rel_err_independent_formulation"] = worst_indep
     ctx.notes["independent_formulation_cases"] = n_indep
     ctx.notes["actions_taken"] = cov
